@@ -69,7 +69,7 @@ func writeDeclarations(w *formatting.IndentedWriter, ns *dsl.Namespace) {
 	fmt.Fprintf(w, "enum class Version {\n")
 	w.Indented(func() {
 		for _, v := range ns.Versions {
-			fmt.Fprintf(w, "%s,\n", v)
+			fmt.Fprintf(w, "%s,\n", common.VersionIdentifierName(v))
 		}
 		fmt.Fprintln(w, "Current")
 	})
@@ -227,7 +227,7 @@ func writeDefinitions(w *formatting.IndentedWriter, ns *dsl.Namespace, symbolTab
 		w.Indented(func() {
 			w.WriteStringln("switch (version) {")
 			for i, versionLabel := range ns.Versions {
-				fmt.Fprintf(w, "case Version::%s: return previous_schemas_[%d]; break;\n", versionLabel, i)
+				fmt.Fprintf(w, "case Version::%s: return previous_schemas_[%d]; break;\n", common.VersionIdentifierName(versionLabel), i)
 			}
 			fmt.Fprintf(w, "case Version::Current: return %s::schema_; break;\n", common.AbstractWriterName(p))
 			fmt.Fprintf(w, "default: throw std::runtime_error(\"The version does not correspond to any schema supported by protocol %s.\");\n", p.Name)
@@ -312,7 +312,7 @@ func writeDefinitions(w *formatting.IndentedWriter, ns *dsl.Namespace, symbolTab
 			for i, versionLabel := range ns.Versions {
 				fmt.Fprintf(w, "else if (schema == previous_schemas_[%d]) {\n", i)
 				w.Indented(func() {
-					fmt.Fprintf(w, "return Version::%s;\n", versionLabel)
+					fmt.Fprintf(w, "return Version::%s;\n", common.VersionIdentifierName(versionLabel))
 				})
 				w.WriteStringln("}")
 			}
